@@ -18,7 +18,7 @@ RULE = ("Generated histories of VALID add calls (the C12 generators restricted t
         "the mapping predicted by the reference model for that history (not the first object's mapping), the compose "
         "section must survive, the second dump must be byte-identical and the JSON document must equal the reference "
         "document. Non-trivial = >= 2 variants or >= 2 arches or a source package with >= 2 entries; distinct = SHA-1 of "
-        "the history.")
+        "the history. Histories contain refused adds as well: what was refused leaves no trace in what is written and read back.")
 ASSUMPTIONS = ["json (stdlib) is a correct JSON reader"]
 FLOORS = {"rpms": 200, "modules": 200, "extra-files": 100}
 
